@@ -758,7 +758,7 @@ func c01FullFallback(c *core.Ctx) {
 		return
 	}
 	m := matchers{
-		"batch":   has("NeedFullSync", "!NeedFullSync()"),
+		"batch":   has("NeedFullSync", "~NeedFullSync()"),
 		"gateway": has("gateway.Config", "NeedFullSync()"),
 		"ingress": has("ingress.Config", "NeedFullSync()"),
 	}
